@@ -40,10 +40,24 @@ let sprinkle r (extra : 'a list) (l : 'a list) : 'a list =
   List.fold_left (fun acc x -> let pos = rint r (List.length acc + 1) in take pos acc @ [ x ] @ drop pos acc) l extra
 let mkpage r items : 'a hpage = { hp_lsn = rbytes r 12; hp_prune = rbytes r 4; hp_items = items }
 (* PageAddItem in order; a new page when [per_page] items are on it or the next one does not fit *)
-let pack r ~(fits : 'a hpage -> bool) ~(per_page : int) (items : 'a version list) : 'a hpage list =
+(* [upper items] (optional) = pd_upper of a page holding [items]: lets a closed page be topped up, one time in three, with a
+   dead tuple of exactly the remaining size, so that pd_lower = pd_upper (no free space at all; seeded change C01-4) *)
+let pack r ?(upper : ('a version list -> int) option) ~(fits : 'a hpage -> bool) ~(per_page : int) (items : 'a version list) : 'a hpage list =
   let pages = ref [] and cur = ref [] and n = ref 0 in
   let probe = mkpage r [] in
-  let flush () = pages := mkpage r (List.rev !cur) :: !pages; cur := []; n := 0 in
+  let topup (its : 'a version list) : 'a version list =
+    match upper with
+    | Some up when rint r 3 = 0 ->
+      let lower' = 24 + 4 * (List.length its + 1) in
+      let len = up its - lower' in
+      if lower' mod 8 = 0 && len >= 24 && len <= 8000 then begin
+        let t = { tp_head = rbytes r 18; tp_natts = zi 0; tp_flags2 = zi 0; tp_infomask = zi (pick r [| 0x0500; 0x0A00; 0x0400 |]);
+                  tp_hoff = zi 24; tp_mid = [ byte_of_int 0 ]; tp_data = rbytes r (len - 24) } in
+        let its' = its @ [ VOld t ] in
+        if fits { probe with hp_items = its' } && up its' = lower' then its' else its
+      end else its
+    | _ -> its in
+  let flush () = pages := mkpage r (topup (List.rev !cur)) :: !pages; cur := []; n := 0 in
   List.iter (fun it ->
       if !n > 0 && (!n >= per_page || not (fits { probe with hp_items = List.rev (it :: !cur) })) then flush ();
       cur := it :: !cur; incr n) items;
@@ -326,7 +340,7 @@ let build_dir r (p : prof) ~(det : det) ~(dir_oid : int) ~(budget : int ref) ~(s
     | MalLiveJunk -> sprinkle r (List.init (rrange r 1 3) (fun _ -> VOld (junk_tup r ~alive:true))) class_items
     | _ -> class_items in
   let ncls = List.length class_items in
-  let class_pages = pack r ~fits:(page_fits schemaPGClass class_ds) ~per_page:(per_page_for ~maxpages:3 ncls p.cls_pp) class_items in
+  let class_pages = pack r ~upper:(fun its -> iz (lay_up schemaPGClass class_ds its (zi 8192))) ~fits:(page_fits schemaPGClass class_ds) ~per_page:(per_page_for ~maxpages:3 ncls p.cls_pp) class_items in
   let dir_class = match p.empty_class with
     | 1 -> []
     | 2 -> [ HPage (mkpage r []) ]
@@ -393,7 +407,7 @@ let build_dir r (p : prof) ~(det : det) ~(dir_oid : int) ~(budget : int ref) ~(s
         VRow (mk_vhdr r ~alive:false, { a with ar_name = bs "ddl_leftover" }) in
       List.init (max 0 (att_per_page - k)) deadrow @ attr_items
     end else attr_items in
-  let attr_pages = pack r ~fits:(page_fits asch ads) ~per_page:att_per_page attr_items in
+  let attr_pages = pack r ~upper:(fun its -> iz (lay_up asch ads its (zi 8192))) ~fits:(page_fits asch ads) ~per_page:att_per_page attr_items in
   let dir_attr = heap_of r ~zero_ok:(natt < 40) attr_pages in
   (* --- relation files --- *)
   let live_attrs = live_rows dir_attr in
@@ -412,7 +426,7 @@ let build_dir r (p : prof) ~(det : det) ~(dir_oid : int) ~(budget : int ref) ~(s
         let extra = if mal = MalLiveJunk && is_dump x then VOld (junk_tup r ~alive:true) :: extra else extra in
         let items = sprinkle r extra alive_rows in
         let n = List.length items in
-        let pages = pack r ~fits:(page_fits cols idds) ~per_page:(per_page_for ~maxpages:2 n (pick r [| 3; 6; 100 |])) items in
+        let pages = pack r ~upper:(fun its -> iz (lay_up cols idds its (zi 8192))) ~fits:(page_fits cols idds) ~per_page:(per_page_for ~maxpages:2 n (pick r [| 3; 6; 100 |])) items in
         Some { rf_node = zi x.node; rf_cols = cols; rf_heap = heap_of r (take 2 pages) } end) rels in
   { dir = { dir_oid = zi dir_oid; dir_class; dir_attr; dir_files }; rels }
 
@@ -479,7 +493,7 @@ let build_cluster r (p : prof) : world =
     | MalLiveJunk -> sprinkle r [ VOld (junk_tup r ~alive:true); VOld (junk_tup r ~alive:true) ] items
     | _ -> items in
   let n = List.length items in
-  let pages = pack r ~fits:(page_fits schemaPGDatabase db_ds) ~per_page:(per_page_for ~maxpages:3 n p.db_pp) items in
+  let pages = pack r ~upper:(fun its -> iz (lay_up schemaPGDatabase db_ds its (zi 8192))) ~fits:(page_fits schemaPGDatabase db_ds) ~per_page:(per_page_for ~maxpages:3 n p.db_pp) items in
   let cl_pgdb = match pages with [] -> [ HPage (mkpage r []) ] | _ -> heap_of r pages in
   { c = { cl_v16 = p.v16; cl_pgdb; cl_dirs = dirs }; dbnames = names; tplnames = tpls;
     tables = (match List.filter_map (fun x -> if is_dump x && x.file then Some x.name else None) !rels with
